@@ -613,6 +613,15 @@ theorem issue_req_fail (s : State) (c : Bool) (hf : ∀ w, (allocId s.M s.nextId
   cases c <;> simp [issue, del_fresh hf] <;> simpa [newWait] using hd
 
 
+theorem noroute_cb (s : State) :
+    noroute s true true =
+      { s with ninst := s.ninst + 1, nest := s.nest + 1,
+               log := .cb s.ninst 0 .noService s.now :: .done s.ninst 0 :: .issued s.ninst 0 s.now :: s.log } := rfl
+
+theorem noroute_nocb (s : State) (r c : Bool) (h : (r && c) = false) :
+    noroute s r c = { s with ninst := s.ninst + 1 } := by
+  simp [noroute, h]
+
 /-! ### every transition preserves the invariant -/
 
 theorem WF.of_idle {s : State} (hb : s.base = .idle) (h : WFx s []) : WF s := by
@@ -693,6 +702,37 @@ theorem issue_WF {s : State} (h : WF s) (r o c : Bool) (hc : (issue s r o c).col
         exact ⟨h.a, b.cbFreshInst _ _ _, c'.cb _ _ _ _ ⟨s.now, by simp, by intro e; cases e⟩,
           d.log _ (by intro _ _ e; injection e) (by intro _ _ _ e; injection e),
           f.cb _ _ _ _ (List.mem_cons_self ..)⟩
+
+theorem noroute_WF {s : State} (h : WF s) (r c : Bool) : WF (noroute s r c) := by
+  cases hrc : (r && c) with
+  | false => rw [noroute_nocb s r c hrc]; exact ⟨h.a, h.b.skip, h.c, h.d.skip, h.f⟩
+  | true =>
+    simp only [Bool.and_eq_true] at hrc
+    obtain ⟨rfl, rfl⟩ := hrc
+    rw [noroute_cb]
+    have b := ((h.b.log (.issued s.ninst 0 s.now) (by intro i; rfl)).log (.done s.ninst 0) (by intro i; rfl))
+    have c' := ((h.c.log (.issued s.ninst 0 s.now) (by intro _ _ _ _ e; injection e)).log
+      (.done s.ninst 0) (by intro _ _ _ _ e; injection e))
+    have d := h.d.serFail h.b.instLt 0 s.now
+    have f := (h.f.log (.issued s.ninst 0 s.now) (by intro _ _ _ _ e; injection e)).log
+      (.done s.ninst 0) (by intro _ _ _ _ e; injection e)
+    exact ⟨h.a, b.cbFreshInst _ _ _, c'.cb _ _ _ _ ⟨s.now, by simp, by intro e; cases e⟩,
+      d.log _ (by intro _ _ e; injection e) (by intro _ _ _ e; injection e),
+      f.cb _ _ _ _ (List.mem_cons_self ..)⟩
+
+theorem noroute_collided (s : State) (r c : Bool) : (noroute s r c).collided = s.collided := by
+  unfold noroute; split <;> rfl
+
+theorem noroute_pending (s : State) (r c : Bool) : (noroute s r c).pending = s.pending := by
+  unfold noroute; split <;> rfl
+
+theorem noroute_base (s : State) (r c : Bool) : (noroute s r c).base = s.base := by
+  unfold noroute; split <;> rfl
+
+theorem noroute_log_mono {s : State} (r c : Bool) {e : Ev} (h : e ∈ s.log) : e ∈ (noroute s r c).log := by
+  unfold noroute; split
+  · exact List.mem_cons_of_mem _ (List.mem_cons_of_mem _ (List.mem_cons_of_mem _ h))
+  · exact h
 
 theorem response_busy {s : State} (h : free s = false) (id : Nat) (p : Payload) : response s id p = s := by
   simp [response, h]
@@ -786,6 +826,7 @@ theorem panicScan_WF {s : State} (h : WF s) : WF (panicScan s) := by
 theorem step_WF {s : State} (h : WF s) (op : Op) (hc : (step s op).collided = false) : WF (step s op) := by
   cases op with
   | issue r o c => exact issue_WF h r o c hc
+  | noroute r c => exact noroute_WF h r c
   | response id p => exact response_WF h id p
   | tick order => exact tick_WF h order hc
   | ret => exact ret_WF h hc
@@ -841,6 +882,7 @@ theorem step_collided {s : State} (op : Op) (h : s.collided = true) : (step s op
     cases r with
     | false => simp only [step]; rw [issue_notify]; cases o <;> exact h
     | true => simp only [step]; rw [issue_req_collided, h]; rfl
+  | noroute r c => simp only [step]; rw [noroute_collided]; exact h
   | response id p =>
     simp only [step]
     cases hfree : free s with
@@ -971,6 +1013,7 @@ theorem step_log_mono {s : State} (op : Op) {e : Ev} (h : e ∈ s.log) : e ∈ (
     simp only
     repeat' split
     all_goals simp [h]
+  | noroute r c => exact noroute_log_mono r c h
   | response id p =>
     simp only [step]
     cases hfree : free s with
@@ -1014,7 +1057,8 @@ theorem step_new_cb {s : State} {op : Op} {i id : Nat} {o : Outcome} {t : Nat}
     (o = .timeout ∧ t = s.now ∧ (∃ order, op = .tick order) ∨ op = .ret ∧ o = .timeout ∧ t = s.now) ∨
     (o = .serErr ∧ i = s.ninst ∧ ∃ c, op = .issue true false c) ∨
     (∃ p w, op = .response id p ∧ o = decode p ∧ free s = true ∧ find id s.pending = some w ∧
-            w.inst = i ∧ w.hasCb = true ∧ t = s.now) := by
+            w.inst = i ∧ w.hasCb = true ∧ t = s.now) ∨
+    (o = .noService ∧ i = s.ninst ∧ id = 0 ∧ t = s.now ∧ op = .noroute true true) := by
   cases op with
   | issue r ok c =>
     simp only [step] at hin
@@ -1030,6 +1074,19 @@ theorem step_new_cb {s : State} {op : Op} {i id : Nat} {o : Outcome} {t : Nat}
         | (rcases hin with ⟨e1, _, e3, e4⟩ | hin
            · exact Or.inr (Or.inl ⟨e3, e1, _, rfl⟩)
            · exact absurd hin hnew)
+  | noroute r c =>
+    simp only [step] at hin
+    cases hrc : (r && c) with
+    | false => rw [noroute_nocb s r c hrc] at hin; exact absurd hin hnew
+    | true =>
+      simp only [Bool.and_eq_true] at hrc
+      obtain ⟨rfl, rfl⟩ := hrc
+      rw [noroute_cb] at hin
+      simp only [List.mem_cons, reduceCtorEq, false_or] at hin
+      rcases hin with hin | hin
+      · injection hin with e1 e2 e3 e4
+        exact Or.inr (Or.inr (Or.inr ⟨e3, e1, e2, e4, rfl⟩))
+      · exact absurd hin hnew
   | response id' p =>
     simp only [step] at hin
     cases hfree : free s with
@@ -1047,7 +1104,7 @@ theorem step_new_cb {s : State} {op : Op} {i id : Nat} {o : Outcome} {t : Nat}
           rcases hin with hin | hin
           · injection hin with e1 e2 e3 e4
             subst e1 e2 e3 e4
-            exact Or.inr (Or.inr ⟨p, w, rfl, rfl, rfl, hf, rfl, hcb, rfl⟩)
+            exact Or.inr (Or.inr (Or.inl ⟨p, w, rfl, rfl, rfl, hf, rfl, hcb, rfl⟩))
           · exact absurd hin hnew
         | false =>
           rw [response_nocb hfree hf hcb] at hin
@@ -1219,6 +1276,7 @@ theorem step_AllocInv {s : State} (hM : 1 ≤ s.M) (h : AllocInv s) (op : Op) :
       all_goals first
         | exact hq.sub hsub1
         | exact hq.sub (fun x hx => hsub1 x (mem_del.1 hx).1)
+  | noroute r c => simp only [step]; unfold noroute; split <;> exact ⟨h, rfl⟩
   | response id p =>
     simp only [step]
     cases hfree : free s with
@@ -1358,6 +1416,10 @@ theorem step_progress {s : State} (hwf : WF s) {id : Nat} {w : Wait} (op : Op) (
           cases o with
           | true => rw [issue_req_ok s c hf]; exact List.mem_cons_of_mem _ hm
           | false => rw [issue_req_fail s c hf]; exact hm
+    | noroute r c =>
+      refine Or.inr ⟨cur, rest, ?_, hin, ?_⟩
+      · simp only [step]; rw [noroute_base]; exact hb
+      · simp only [step]; rw [noroute_pending]; exact hm
     | response id' p => simp only [step]; rw [response_busy hnf]; exact Or.inr ⟨cur, rest, hb, hin, hm⟩
     | tick order =>
       have : tick s order = s := by simp [tick, hnf]
@@ -1492,6 +1554,7 @@ theorem step_no_collide {s : State} (hwf : WF s) (hc : s.collided = false) (op :
     | true =>
       simp only [GuardOk, guardOkB, Bool.not_eq_eq_eq_not, Bool.not_true] at hg
       simp only [step]; rw [issue_req_collided, hc, hg]; rfl
+  | noroute r c => simp only [step]; rw [noroute_collided]; exact hc
   | response id p =>
     simp only [step]
     cases hfree : free s with
